@@ -20,6 +20,116 @@ func vfFormPost(path string, form url.Values) *http.Request {
 	return req
 }
 
+const vfC17OwnHost = "keymaster.example.com"
+
+func vfC17Oauth2Config(state *RuntimeState) {
+	state.Config.Oauth2.Enabled = true
+	state.Config.Oauth2.Config = &oauth2.Config{ClientID: "vf", ClientSecret: "vf",
+		Endpoint:    oauth2.Endpoint{AuthURL: "http://localhost:12345/auth", TokenURL: "http://localhost:12345/token"},
+		RedirectURL: "https://" + vfC17OwnHost + redirectPath}
+	state.Config.Oauth2.UserinfoUrl = "http://localhost:12345/userinfo"
+}
+
+// vfC17Flow plays one browser through a history of federated-login requests against the real handlers:
+//
+//	B <hex dest|-> <n|j|idx>   POST /auth/oauth2/login with this login_destination (`-`: no field), presenting no
+//	                           oauth2_redir cookie / the one in the browser's jar / the one attempt idx received
+//	C <i> <j>                  GET /auth/oauth2/callback with the state of attempt i and the cookie of attempt j
+//
+// and answers `flow <parseOK of each begin's filtered destination|-> {<hex Location>|STATUSnnn|PANIC}` (one result
+// per callback). Every request is addressed to vfC17OwnHost.
+func vfC17Flow(state *RuntimeState, f []string) string {
+	vfC17Oauth2Config(state)
+	type attempt struct {
+		cookie *http.Cookie
+		state  string
+	}
+	var attempts []attempt
+	var jar *http.Cookie
+	bits := ""
+	var results []string
+	for len(f) > 0 {
+		if len(f) < 3 {
+			return "bad-op"
+		}
+		switch f[0] {
+		case "B":
+			form := url.Values{}
+			if f[1] != "-" {
+				s, ok := vfUnhex(f[1])
+				if !ok {
+					return "bad-op"
+				}
+				form.Set("login_destination", s)
+			}
+			req := vfFormPost(oauth2LoginBeginPath, form)
+			req.Host = vfC17OwnHost
+			held := jar
+			switch f[2] {
+			case "n":
+				held = nil
+			case "j":
+			default:
+				k, err := strconv.Atoi(f[2])
+				if err != nil || k < 0 || k >= len(attempts) {
+					return "bad-op"
+				}
+				held = attempts[k].cookie
+			}
+			if held != nil {
+				req.AddCookie(&http.Cookie{Name: held.Name, Value: held.Value})
+			}
+			// what the filter makes of this request, and whether url.Parse accepts that (the model's oracle)
+			freq := vfFormPost(oauth2LoginBeginPath, form)
+			freq.Host = vfC17OwnHost
+			filtered := getLoginDestination(freq)
+			u, err := url.Parse(filtered)
+			bits += vfBool(err == nil && u.Scheme == "" && u.Host == "")
+			br, p := vfServe(state.oauth2DoRedirectoToProviderHandler, req)
+			if p != nil || br.Code != 302 {
+				return "flow-begin-failed"
+			}
+			pu, err := url.Parse(br.Header().Get("Location"))
+			if err != nil {
+				return "flow-begin-failed"
+			}
+			for _, c := range br.Result().Cookies() {
+				if c.Name == redirCookieName {
+					held = c // the browser replaces the cookie it had
+				}
+			}
+			if held == nil {
+				return "flow-begin-failed"
+			}
+			jar = held
+			attempts = append(attempts, attempt{held, pu.Query().Get("state")})
+		case "C":
+			i, err1 := strconv.Atoi(f[1])
+			j, err2 := strconv.Atoi(f[2])
+			if err1 != nil || err2 != nil || i < 0 || j < 0 || i >= len(attempts) || j >= len(attempts) {
+				return "bad-op"
+			}
+			cb := httptest.NewRequest("GET", redirectPath+"?code=x&state="+url.QueryEscape(attempts[i].state), nil)
+			cb.Host = vfC17OwnHost
+			cb.AddCookie(&http.Cookie{Name: attempts[j].cookie.Name, Value: attempts[j].cookie.Value})
+			if cr, p := vfServe(state.oauth2RedirectPathHandler, cb); p != nil {
+				results = append(results, "PANIC")
+			} else if cr.Code == 302 {
+				results = append(results, vfHex(cr.Header().Get("Location")))
+			} else {
+				results = append(results, "STATUS"+strconv.Itoa(cr.Code))
+			}
+		default:
+			return "bad-op"
+		}
+		f = f[3:]
+	}
+	if bits == "" {
+		bits = "-"
+	}
+	return strings.TrimSpace("flow " + bits + " " + strings.Join(results, " "))
+}
+
 // TestVerifC17: for every `dest <hex> -` op emit
 //
 //	<hex filtered> <hex Location from http.Redirect> <parseOK> <n handler locations> {<name>=<hex Location>}
@@ -30,6 +140,10 @@ func TestVerifC17(t *testing.T) {
 	defer cleanup()
 	for _, line := range io.ops {
 		f := strings.Fields(line)
+		if len(f) >= 1 && f[0] == "flow" {
+			io.emit("%s", vfC17Flow(state, f[1:]))
+			continue
+		}
 		if len(f) != 3 || f[0] != "dest" {
 			io.emit("bad-op")
 			continue
@@ -48,11 +162,15 @@ func TestVerifC17(t *testing.T) {
 				r.Header.Set("Referer", "https://"+r.Host+s)
 			case "ref2":
 				r.Header.Set("Referer", "//"+r.Host+s)
+			case "own":
+				// the request is addressed to keymasterd under its own name: the destination strings of this
+				// carrier are absolute / scheme-relative URLs naming that very host
+				r.Host = vfC17OwnHost
 			}
 			return r
 		}
 		form := url.Values{}
-		if carrier == "-" {
+		if carrier == "-" || carrier == "own" {
 			form.Set("login_destination", s)
 		} else if carrier != "ref" && carrier != "ref2" {
 			io.emit("bad-op")
@@ -90,7 +208,7 @@ func TestVerifC17(t *testing.T) {
 			t.Fatal(err)
 		}
 		form2 := url.Values{}
-		if carrier == "-" {
+		if carrier == "-" || carrier == "own" {
 			form2.Set("login_destination", s)
 		}
 		form2.Set("OTP", testBootstrapOTP)
@@ -106,11 +224,7 @@ func TestVerifC17(t *testing.T) {
 		}
 		// 3c. federated login through the real handlers: the destination is parked at
 		// /auth/oauth2/login and used by the callback (stub IdP of the repo's own tests on :12345)
-		state.Config.Oauth2.Enabled = true
-		state.Config.Oauth2.Config = &oauth2.Config{ClientID: "vf", ClientSecret: "vf",
-			Endpoint:    oauth2.Endpoint{AuthURL: "http://localhost:12345/auth", TokenURL: "http://localhost:12345/token"},
-			RedirectURL: "https://keymaster.example.com" + redirectPath}
-		state.Config.Oauth2.UserinfoUrl = "http://localhost:12345/userinfo"
+		vfC17Oauth2Config(state)
 		oloc := "oauth2=STATUSbegin"
 		if br, p := vfServe(state.oauth2DoRedirectoToProviderHandler, addCarrier(vfFormPost(oauth2LoginBeginPath, form2))); p == nil && br.Code == 302 {
 			if u, err := url.Parse(br.Header().Get("Location")); err == nil {
